@@ -696,3 +696,36 @@ def count_up_to(d, maxlen, symbols=None):
 def width(pattern, flags=0):
     t = parse(pattern, flags)
     return t.getwidth()
+
+
+def enumerate_finite(d, limit=200, maxlen=40):
+    """All accepted strings of a finite language (AnalysisError if more than limit)."""
+    # live states
+    rev = collections.defaultdict(set)
+    for s in range(d.n_states):
+        for t in d.trans[s]:
+            rev[t].add(s)
+    live = set(d.accept)
+    st = list(d.accept)
+    while st:
+        x = st.pop()
+        for p in rev[x]:
+            if p not in live:
+                live.add(p)
+                st.append(p)
+    out = []
+    todo = [(d.start, [])]
+    while todo:
+        s, w = todo.pop()
+        if s in d.accept:
+            out.append(list(w))
+            if len(out) > limit:
+                raise AnalysisError('language larger than %d strings' % limit)
+        if len(w) >= maxlen:
+            raise AnalysisError('language has strings longer than %d (infinite?)' % maxlen)
+        row = d.trans[s]
+        for x in range(d.N):
+            t = row[x]
+            if t in live:
+                todo.append((t, w + [x]))
+    return sorted(out)
